@@ -6,7 +6,9 @@ R1 (engine E1): in every debug entry point, with the caller holding nothing / th
    typestate at entry; no blocking call is made.
 R2 (bounds, nsa.bounds): every store through the caller's buffer is within [0, len).
 R3 (CFG): every path through a state emitter ends with a terminator: the NUL handed to the character writer (the one function that, when
-   a character does not fit, writes the "..." marker), or a NUL stored directly at start[pos] under pos < len (it fits, nothing is lost).
+   a character does not fit, writes the "..." marker), a NUL stored directly at start[pos] under pos < len (it fits, nothing is lost), a
+   call of a marker function (writes through the buffer and sets the overflow flag on every path), or the edge on which the overflow flag
+   was found already set (only the character writer and marker functions set it).
    A path on which the text filled the buffer and that bypasses the character writer drops the last character without the marker.
    Nothing is emitted after the terminator."""
 from .. import util, mumodel, ir as IR
@@ -119,8 +121,62 @@ def check_termination(mod, rep, rid):
         for f2, cs in cg.items():
             if f2 not in emit_like and cs & emit_like and f2 not in inits:
                 emit_like.add(f2); changed = True
+    # marker functions: descriptor functions that write through the buffer and set the overflow flag on every path (the "..." writer split off
+    # from the character writer); and the "already marked" edge: a branch taken because the overflow flag was found set - the flag is set by
+    # nobody but the character writer's overflow path and the marker functions
+    F_OVF = bounds.BUF + '.overflow'
+    def sets_ovf(f, i):
+        return i.op == 'store' and IR.is_int(i.ops[0]) and IR.ival(i.ops[0]) != 0 and bounds._field_of(mod, f, i.ops[1])[0] == F_OVF
+    markers = set()
+    for w in writers:
+        f = mod.func(w)
+        if w in charw or not takes_buf(f) or not any(sets_ovf(f, i) for i in f.real_insts()):
+            continue
+        first = f.entry.insts[0]
+        if sets_ovf(f, first) or paths_avoiding(f, first, lambda i: i.op == 'ret', lambda i: sets_ovf(f, i)) is None:
+            markers.add(w)
+    ovf_setters = set(f.name for f in mod.defined.values() if any(sets_ovf(f, i) for i in f.real_insts()))
+    flag_trusted = ovf_setters <= (charw | markers)
+    def marked_edge(fn, src, dst):
+        """the edge src -> dst is taken because the overflow flag was read as non-zero"""
+        if not flag_trusted:
+            return False
+        t = fn.bmap[src].term
+        if t.op != 'br' or len(t.x['targets']) != 2 or t.x['targets'][0] == t.x['targets'][1] or not isinstance(t.ops[0], str):
+            return False
+        out = []
+        bounds._expand(fn, fn.imap[t.ops[0]], t.x['targets'][0] == dst, out, 0)
+        for c, sense in out:
+            n = bounds._norm_cmp(fn, c, sense)
+            if n and n[0] == 'ne' and IR.is_int(n[2]) and IR.ival(n[2]) == 0 and bounds._load_of(mod, fn, n[1], F_OVF) is not None:
+                return True
+        return False
+    def escapes(fn, term):
+        """is there a path from the entry of fn to a return that meets no terminator event (instruction or marked edge)?"""
+        seen, work = set(), [fn.entry.id]
+        while work:
+            b = work.pop()
+            if b in seen:
+                continue
+            seen.add(b)
+            blk = fn.bmap[b]
+            hit = False
+            for i in blk.insts:
+                if is_event(fn, i, term):
+                    hit = True
+                    break
+                if i.op == 'ret':
+                    return True
+            if hit:
+                continue
+            for sx in blk.succ:
+                if not marked_edge(fn, b, sx):
+                    work.append(sx)
+        return False
     def is_event(fn, i, term):
         if i.op == 'call' and i.callee in charw and len(i.ops) >= 2 and IR.is_int(i.ops[1]) and IR.ival(i.ops[1]) == 0:
+            return True
+        if i.op == 'call' and i.callee in markers:
             return True
         if i.op == 'call' and i.callee in term:
             return True
@@ -138,9 +194,7 @@ def check_termination(mod, rep, rid):
                 continue
             if not any(is_event(f, i, term) for i in f.real_insts()):
                 continue
-            first = f.entry.insts[0]
-            esc = None if is_event(f, first, term) else paths_avoiding(f, first, lambda i: i.op == 'ret', lambda i: is_event(f, i, term))
-            if esc is None:
+            if not escapes(f, term):
                 term.add(f.name); changed = True
     # roots: the emitters the public functions hand their freshly initialised buffer to (or the public function itself)
     roots = []
@@ -157,10 +211,6 @@ def check_termination(mod, rep, rid):
         ok = rn in term
         why = None
         if not ok:
-            first = f.entry.insts[0]
-            def ev(i):
-                return is_event(f, i, term)
-            esc = paths_avoiding(f, first, lambda i: i.op == 'ret', ev)
             # name the helper that lets the path through, if that is where it happens
             leak = next((i.callee for i in f.real_insts() if i.op == 'call' and i.callee not in term and i.callee not in charw and mod.func(i.callee) is not None
                          and not mod.func(i.callee).decl and takes_buf(mod.func(i.callee)) and any(is_event(mod.func(i.callee), j, term) for j in mod.func(i.callee).real_insts())), None)
